@@ -245,6 +245,22 @@ func init() {
 				res.addFinding("C18/"+role+"/no-refund/electrum-watcher-concurrent", "both handlers returned but no refund followed: final "+st, map[string]interface{}{"role": role})
 			}
 		}
+		// (f) a watcher reports that the opening transaction did NOT confirm in time (error callback) to a taker
+		// that is waiting for it; then the peer's cancel arrives: both handlers return
+		for _, role := range []string{"outSender", "inReceiver"} {
+			for _, chain := range []string{"btc", "lbtc"} {
+				base := baseScript(role, chain)
+				steps := append(append([]string{}, base[:len(base)-1]...), "confirm err", "cancel", "timeout")
+				w, c, rs := runScenario(defaultCfg(), steps)
+				res.Evaluations++
+				res.Distinct++
+				res.Histogram["(f) final "+c.state()]++
+				if w.hung {
+					res.addFinding("C18/"+role+"/handler-blocked/failed-confirmation", "the handler of a failed-confirmation notification (or of the message after it) does not return", map[string]interface{}{"role": role, "chain": chain, "scenario": scenarioKey(steps), "results": rs})
+				}
+				w.close()
+			}
+		}
 		// (e) the real block dispatcher with a confirmation observer that is still busy when the next block arrives
 		{
 			ok, nconf := c18BusyObserver(1500 * time.Millisecond)
